@@ -84,7 +84,9 @@ _pk = [0]
 MODES = ["data", "unmarshal", "readall", "copy", "close"]     # + "" = io.ReadFull of k bytes
 
 
-def frame(typ, plen, k=0, panic=False, mid=None, reply_to=None, rsv=0, ver=1, pseed=0, pkind=None, mode="", pat=False):
+def frame(typ, plen, k=0, panic=False, mid=None, reply_to=None, rsv=0, ver=1, pseed=0, pkind=None, mode="", pat=False, phex=None):
+    if phex is not None:
+        plen = len(phex) // 2
     # what the consumption path reads of an n-byte payload, for the model and the predicate
     if mode in ("data", "unmarshal"):
         k = plen if plen <= LIMIT else 0        # Message.data refuses to buffer more than the limit
@@ -96,7 +98,7 @@ def frame(typ, plen, k=0, panic=False, mid=None, reply_to=None, rsv=0, ver=1, ps
         pkind = PKINDS[_pk[0] % len(PKINDS)]
         _pk[0] += 1
     return dict(rsv=rsv, ver=ver, typ=typ, id=mid or 0, reply_to=reply_to, plen=plen, pseed=pseed, k=k, panic=panic,
-                pkind=pkind or "", mode=mode, **({"pat": True} if pat else {}))
+                pkind=pkind or "", mode=mode, **({"pat": True} if pat else {}), **({"phex": phex} if phex else {}))
 
 
 def ks(n):
@@ -121,13 +123,15 @@ class Builder:
         self.sc["steps"].append(st)
         return j
 
-    def chunk(self, frames, seg="whole", segseed=1, segmax=64, segcuts=None):
+    def chunk(self, frames, seg="whole", segseed=1, segmax=64, segcuts=None, segpause_ms=None):
         for f in frames:
             self.pseed += 1
             f["pseed"] = self.pseed
         st = dict(op="chunk", frames=frames, seg=seg, segseed=segseed, segmax=segmax)
         if segcuts is not None:
             st["segcuts"] = list(segcuts)
+        if segpause_ms is not None:
+            st["segpause_ms"] = list(segpause_ms)
         self.sc["steps"].append(st)
 
     def raw(self, b, seg="whole"):
@@ -252,6 +256,152 @@ def huge_scenarios(rnd, thorough):
             b.chunk(frames)
             out.append(b.sc)
     return out
+
+
+STALL_T = 120        # ms: the client's WithTimeout in the stall scenarios (a read deadline armed at every header read)
+
+
+def stall_scenarios(rnd, thorough):
+    """TIME enters the fragmentation: the client has a read timeout (as internal/driver always configures), and the
+    reader's byte stream stalls for 1.5 timeouts (thorough: also 2.5) — or, in the `brief` scenarios, for a quarter of one, several times — at
+    every class of offset of a frame (inside its header, at the header/payload boundary, inside the payload, before its
+    last byte, at the boundary behind it), on every dispatch path (type / default handler reading none, part, all of the
+    payload, through Message.data, panicking; nobody entitled; awaited and buffered; awaited beyond the limit), and then
+    resumes.  Whatever the client does about the stall — give the connection up (the unchanged code) or carry on —
+    nothing may be dispatched that the reader did not send: every parsed header is the header of the scripted frame at
+    that position, handlers see prefixes of real payloads only, callers get complete real replies only; and if the
+    connection survives, everything behind the stall is parsed at its own first byte.  The payload behind the stall
+    point is itself a well-formed frame (type 30, id 0xDEADBEEF), so that a client that resynchronises there dispatches it."""
+    out = []
+    inner = enc_frame(0, 1, T_U, 0xDEADBEEF, payload(991, 15))
+    body = payload(990, 15) + inner                      # 40 bytes; the last 25 are a well-formed frame
+    n = len(body)
+    paths = [("type-handler-none", [T_H], False, dict(k=0), False),
+             ("type-handler-part", [T_H], False, dict(k=7), False),
+             ("type-handler-all", [T_H], False, dict(k=n), False),
+             ("type-handler-data", [T_H], False, dict(mode="data"), False),
+             ("type-handler-panic", [T_H], False, dict(k=3, panic=True), False),
+             ("default-handler-none", [], True, dict(k=0), False),
+             ("nobody", [], False, dict(k=0), False),
+             ("awaited+handler", [T_H], False, dict(k=0), True),
+             ("awaited+nobody", [], False, dict(k=0), True)]
+    offs = [("in-header", 4), ("header-payload-boundary", 10), ("in-payload", 10 + 15), ("before-last-byte", 10 + n - 1), ("behind-frame", 10 + n)]
+    if thorough:
+        offs += [("before-frame", 0), ("header-last-byte", 9), ("payload-first-byte", 11), ("in-payload-late", 10 + 30)]
+    for pname, hs, df, beh, aw in paths:
+        for oname, off in offs:
+            b = Builder("stall/%s/%s" % (pname, oname), hs, df)
+            b.sc.update(timeout_ms=STALL_T, step_ms=2500)
+            j = b.send(VIAS[len(out) % len(VIAS)], T_H) if aw else None
+            lead = frame(T_H, 6, 6, mid=0xFFF90001)
+            frames = [lead, frame(T_H, n, reply_to=j, mid=0xFFF90002, phex=body.hex(), **beh),
+                      frame(T_U, 4, 2, mid=0xFFF90003), frame(T_H, 2, 2, mid=0xFFF90004)]
+            start = 10 + 6
+            # 1.5 timeouts: beyond the deadline armed for the message in progress, and short enough that a client which
+            # re-arms its deadline and reads on is still listening when the stream resumes (thorough: also 2.5)
+            b.chunk(frames, "cuts", segcuts=[start + off], segpause_ms=[int(1.5 * STALL_T)])
+            b.sc["stall"] = dict(offset=start + off, long=True, frame=1, where=oname, path=pname)
+            out.append(b.sc)
+            if thorough:
+                sc2 = json.loads(json.dumps(b.sc))
+                sc2["name"] += "/2.5-timeouts"
+                sc2["steps"][-1]["segpause_ms"] = [int(2.5 * STALL_T)]
+                out.append(sc2)
+    # beyond the limit (awaited: header-only delivery; not awaited: streamed), stalled inside the payload
+    for pname, hs, df, aw in (("awaited-oversize+handler", [T_H], False, True), ("oversize-streamed", [], True, False)):
+        b = Builder("stall/%s/in-payload" % pname, hs, df)
+        b.sc.update(timeout_ms=STALL_T, step_ms=4000)
+        j = b.send("message", T_H) if aw else None
+        big = LIMIT + 1 + rnd.randrange(500)
+        b.chunk([frame(T_H, big, 0, reply_to=j, mid=0xFFF90002), frame(T_U, 4, 2, mid=0xFFF90003)], "cuts",
+                segcuts=[10 + 70000], segpause_ms=[int(1.5 * STALL_T)])
+        b.sc["stall"] = dict(offset=10 + 70000, long=True, frame=0, where="in-payload", path=pname)
+        out.append(b.sc)
+    # brief stalls (a quarter of the timeout) at several offsets: the connection is expected to survive them
+    for pname, hs, df, beh, aw in (paths if thorough else paths[:2] + paths[5:8]):
+        b = Builder("stall/%s/brief" % pname, hs, df)
+        b.sc.update(timeout_ms=STALL_T * 2, step_ms=2500)
+        j = b.send("", T_H) if aw else None
+        frames = [frame(T_H, 6, 6, mid=0xFFF90001), frame(T_H, n, reply_to=j, mid=0xFFF90002, phex=body.hex(), **beh),
+                  frame(T_U, 4, 2, mid=0xFFF90003), frame(T_H, 2, 2, mid=0xFFF90004)]
+        cuts = [16 + 4, 16 + 10, 16 + 25, 16 + 10 + n]
+        b.chunk(frames, "cuts", segcuts=cuts, segpause_ms=[STALL_T // 4] * len(cuts))
+        b.sc["stall"] = dict(offset=None, long=False, frame=1, where="brief", path=pname)
+        out.append(b.sc)
+    return out
+
+
+def timed_check(sc, go):
+    """the property under stalls, on the observations alone: nothing is dispatched that the reader did not send"""
+    frames, tail, _, req_id, _ = flatten(sc)
+    fails = []
+    recs = go["records"][1:]
+    stall = sc["stall"]
+    tag = "stall-" + stall["where"]
+    aw = set()
+    for i, r in enumerate(recs):
+        if i >= len(frames):
+            fails.append(("dispatched-message-never-sent:" + tag, "the client parsed %d headers, the reader sent %d messages; extra header %s"
+                          % (len(recs), len(frames), r["hdr"])))
+            break
+        f = frames[i]
+        aw |= set(f["register"])
+        want = [f["ver"], f["typ"], f["plen"], f["id"]]
+        if r["hdr"] != want:
+            fails.append(("dispatched-message-never-sent:" + tag,
+                          "the reader's byte stream stalled for %d ms (client timeout %d ms) %s of frame %d and then resumed; the client "
+                          "then parsed a header %s at position %d where the reader's message is %s — bytes from the middle of a payload "
+                          "were taken for a message; handler calls for it: %s"
+                          % (max(step_pauses(sc)), sc["timeout_ms"], stall["where"], stall["frame"], r["hdr"], i, want, r["calls"])))
+            break
+        pl = f["payload"]
+        ent = ("T%d" % f["typ"]) if f["typ"] in sc["handlers"] else ("D" if sc["default"] else None)
+        if len(r["calls"]) > 1:
+            fails.append(("handler-not-exactly-once:" + tag, "frame %d: calls %s" % (i, r["calls"])))
+        for c in r["calls"]:
+            if c["who"] != ent or c["hdr"] != want:
+                fails.append(("handler-wrong-party-or-header:" + tag, "frame %d: entitled %s with %s, got %s" % (i, ent, want, c)))
+            elif c["nread"] > len(pl) or c["md5"] != md5(pl[:c["nread"]]):
+                fails.append(("handler-offered-wrong-bytes:" + tag, "frame %d: the handler read %d bytes (md5 %s) that are not a prefix of the "
+                              "%d payload bytes the reader sent" % (i, c["nread"], c["md5"], len(pl))))
+    for c in go["callers"]:
+        if handed_success(c):
+            same = [f for f in frames if f["id"] == c["req_id"]]
+            if not any(c["hdr"][1] == f["typ"] and c["dlen"] == f["plen"] and c["md5"] == md5(f["payload"]) for f in same):
+                fails.append(("caller-handed-phantom-reply:" + tag, "caller with request id %d was handed a success (type %d, %d bytes) that is "
+                              "none of the complete frames the reader sent under that id" % (c["req_id"], c["hdr"][1], c["dlen"])))
+    return fails
+
+
+def step_pauses(sc):
+    return [p for st in sc["steps"] for p in st.get("segpause_ms", [])] or [0]
+
+
+def survived(sc, go):
+    frames = flatten(sc)[0]
+    return len(go["records"]) - 1 >= len(frames) and not go["early_exit"] and go["stalled"] == ""
+
+
+def compare_stalled(sc, go, model):
+    """the client gave the connection up: what it dispatched must be an initial part of what the model dispatches on the
+    stalled stream (Stream.serve_stall, tree as found; theorem C04_stall_dispatches_only_what_was_sent); a spurious earlier
+    timeout (busy machine) only makes it shorter"""
+    recs, end, rest = model
+    diffs = []
+    obs, _ = project_go(sc, go)
+    if len(obs) > len(recs):
+        diffs.append("headers parsed: go %d, model on the stream up to the stall %d" % (len(obs), len(recs)))
+    for i, (m, g) in enumerate(zip(recs, obs)):
+        if m["hdr"] != g["hdr"]:
+            diffs.append("header %d: go %s model %s" % (i, g["hdr"], m["hdr"]))
+            break
+        if m["handler"] == "-" and g["calls"]:
+            diffs.append("frame %d: model calls no handler, go %s" % (i, g["calls"]))
+        elif m["handler"] != "-" and g["calls"]:
+            consumed = int(m["handler"].split(":")[4])
+            if g["calls"][0][2] > consumed:
+                diffs.append("frame %d: handler read %d bytes, the model's handler can read %d before the stall" % (i, g["calls"][0][2], consumed))
+    return diffs
 
 
 def same_id_scenarios(rnd, thorough):
@@ -513,7 +663,7 @@ def flatten(sc, want_stream=False):
         elif st["op"] == "chunk":
             for f in st["frames"]:
                 mid = req_id[f["reply_to"]] if f["reply_to"] is not None else f["id"]
-                pl = Pat(f["pseed"], f["plen"]) if f.get("pat") else payload(f["pseed"], f["plen"])
+                pl = Pat(f["pseed"], f["plen"]) if f.get("pat") else (bytes.fromhex(f["phex"]) if f.get("phex") else payload(f["pseed"], f["plen"]))
                 frames.append(dict(f, id=mid, payload=pl, register=reg))
                 reg = []
         elif st["op"] == "raw":
@@ -540,6 +690,10 @@ def oracle_request(sc):
     env.append("%s/r/0" % (",".join(map(str, lastreg)) or "-"))
     if CLOSE_PARKS[0]:        # tree without fix ea578f8: as if CloseConnection had always been sent
         env = [e + "/1" for e in env]
+    if sc.get("stall") and sc["stall"]["long"]:
+        # a stall beyond the timeout: serve_stall, tree as found (the error of a cut-short drain ends the loop)
+        return "stall %d %s %d %s - %s %s %d 0" % (LIMIT, ",".join(map(str, hs)) or "-", 1 if sc["default"] else 0,
+                                                   ",".join(map(str, READER_INITIATED)), ";".join(env), stream.hex() or "-", sc["stall"]["offset"])
     return "run %d %s %d %s - %s %s" % (LIMIT, ",".join(map(str, hs)) or "-", 1 if sc["default"] else 0,
                                         ",".join(map(str, READER_INITIATED)), ";".join(env), stream.hex() or "-")
 
@@ -805,13 +959,13 @@ def run_oracle(requests):
     return rc, [l for l in out.split("\n") if l.strip()]
 
 
-def run_go(exe, scs, timeout):
+def run_go(exe, scs, timeout, tag=""):
     """runs all scenarios; a crash of the test binary is attributed to the scenario being run"""
     answers, crashed, logs = {}, [], ""
     todo = list(range(len(scs)))
     while todo and len(crashed) < 4:
         rc, lines, log = vlib.run_harness(exe, "TestVerifC04", "\n".join(json.dumps(scs[i]) for i in todo) + "\n",
-                                          timeout=timeout, tag="_%d" % len(crashed))
+                                          timeout=timeout, tag="%s_%d" % (tag, len(crashed)))
         good = []
         for l in lines:
             try:
@@ -863,6 +1017,7 @@ def run(tier, seed, replay=None):
         scs += oversize_awaited_scenarios(random.Random(seed + 23), thorough)
         scs += same_id_scenarios(random.Random(seed + 29), thorough)
         scs += huge_scenarios(random.Random(seed + 31), thorough)
+        scs += stall_scenarios(random.Random(seed + 37), thorough)
         scs += random_scenarios(rnd, 1500 if thorough else 150)
 
     # which types does the code exempt from the awaiting lookup?  (none before the C03/F2 fix)
@@ -899,7 +1054,27 @@ def run(tier, seed, replay=None):
     obox = {}
     oth = threading.Thread(target=lambda: obox.update(r=run_oracle([oracle_request(sc) for sc in scs])))
     oth.start()
-    answers, crashed, unrun = run_go(exe, scs, 2400 if thorough else 600)
+    # the scenarios that spend their time waiting (stalled streams) run in four further processes meanwhile
+    timed = [i for i, sc in enumerate(scs) if sc.get("timeout_ms")]
+    plain = [i for i, sc in enumerate(scs) if not sc.get("timeout_ms")]
+    tbox = {}
+
+    def timed_worker(k):
+        idx = timed[k::4]
+        tbox[k] = (idx, run_go(exe, [scs[i] for i in idx], 900, tag="_t%d" % k))
+    tths = [threading.Thread(target=timed_worker, args=(k,)) for k in range(4)] if timed else []
+    for t in tths:
+        t.start()
+    a0, c0, u0 = run_go(exe, [scs[i] for i in plain], 2400 if thorough else 600)
+    answers = {plain[j]: a for j, a in a0.items()}
+    crashed = [(plain[j], log) for j, log in c0]
+    unrun = [plain[j] for j in u0]
+    for t in tths:
+        t.join()
+    for k, (idx, (a1, c1, u1)) in tbox.items():
+        answers.update({idx[j]: a for j, a in a1.items()})
+        crashed += [(idx[j], log) for j, log in c1]
+        unrun += [idx[j] for j in u1]
     oth.join()
     orc, olines = obox.get("r", (1, []))
     if orc != 0 or len(olines) != len(scs):
@@ -948,8 +1123,16 @@ def run(tier, seed, replay=None):
                          "all" if f["k"] >= f["plen"] else ("none" if f["k"] == 0 else "part"),
                          (f.get("pkind") or "string") if f["panic"] else "", f.get("mode") or "readfull",
                          next(st["seg"] for st in sc["steps"] if st["op"] == "chunk")))
-        fails = property_check(sc, go)
-        diffs = [] if sc.get("pred_only") else compare(sc, go, model)
+        if sc.get("stall"):
+            fails = timed_check(sc, go)
+            if survived(sc, go):
+                fails += property_check(sc, go)
+                diffs = compare(sc, go, model) if not sc["stall"]["long"] else ["the connection survived a stall longer than the timeout"]
+            else:
+                diffs = compare_stalled(sc, go, model) if sc["stall"]["long"] else []
+        else:
+            fails = property_check(sc, go)
+            diffs = [] if sc.get("pred_only") else compare(sc, go, model)
         slow.append((go.get("ms", 0), sc["name"]))
         if len(samples) < 4 and fam in ("tail", "random") and len(frames) <= 4:
             samples.append(dict(scenario=sc, go=go, model=olines[i][:600]))
